@@ -191,4 +191,11 @@ theorem elementwise (kind : CKind) (hc : Bool) (σ : ℝ) (r γ u : Array ℝ) (
 example : |(0.3:ℝ)| ≤ 1 / 2 ∧ |(-0.4:ℝ)| ≤ 1 / 2 := by
   constructor <;> rw [abs_le] <;> constructor <;> norm_num
 
+/-- **the unit of length is a convention**: distance and contact distance multiplied by the same `u > 0` (metres instead of
+reduced units) give the same value, for every closure, flag, γ and potential value — there is no absolute length in a closure -/
+theorem closureAt_length_unit (u : ℝ) (hu : 0 < u) (kind : CKind) (hc : Bool) (σ r γ v : ℝ) :
+    closureAt kind hc (u * σ) (u * r) γ v = closureAt kind hc σ r γ v := by
+  unfold closureAt
+  simp only [mul_lt_mul_iff_right₀ hu]
+
 end C09
